@@ -12,6 +12,27 @@ def isnan(x):
     return isinstance(x, float) and x != x
 
 
+INDEX_KINDS = [None, "offset", "perm", "str", "shuffle", "partial"]
+
+
+def mk_index(n, kind):
+    """row labels of a frame (deterministic in n and kind): default RangeIndex; integers offset
+    beyond 0..n-1; a permutation of 0..n-1; strings; non-monotone distinct integers mostly outside
+    0..n-1; labels n//2 .. n//2+n-1 (half of them overlap 0..n-1)"""
+    import math
+    if kind == "offset":
+        return [i + 1000 for i in range(n)]
+    if kind == "perm":
+        return [(i * 7919 + 13) % n if math.gcd(7919, n) == 1 else (n - 1 - i) for i in range(n)]
+    if kind == "str":
+        return [f"r{i:05d}" for i in range(n)]
+    if kind == "shuffle":
+        return [((i * 7919 + 13) % 10007) * 3 + 1 for i in range(n)]     # distinct: 7919 invertible mod 10007, n <= 400
+    if kind == "partial":
+        return [i + n // 2 for i in range(n)]
+    return None
+
+
 # ---- plain-Python reading of a hierarchy (GroupedList(dict) semantics on well-formed dicts) ----
 def level_parent(level):
     """member -> group leader of one level (the leader leads itself)"""
@@ -123,6 +144,8 @@ class C18(Prop):
             "on min_freq*n, one below, and pairs of siblings whose SUM is on/below the threshold; "
             "NaN rows present/absent; 0, 1 or several distinct unknown values; both unknown_handling "
             "policies; min_freq from a list of p/q; ~8% malformed hierarchies (error class compared); "
+            "fit and transform frames carry a non-default row index in ~75% of cases (offset integers, "
+            "permutation of 0..n-1, strings, non-monotone distinct integers, labels overlapping 0..n-1 by half); "
             "distinct = (levels, policy, unknown class, NaN, outcome, merge profile per level)")
     assumptions = ["one feature, values_orders=None, str_nan='__NAN__', string hierarchy values, cells are "
                    "str or numpy.nan, at least one row",
@@ -142,6 +165,14 @@ class C18(Prop):
         cs.append(self.mk([L0, L1], col + ["u1"], 0.2, True))
         cs.append(self.mk([L0, L1], col + ["u1"], 0.2, False))
         cs.append(self.mk([L0, L1], ["u1", "u2"] + col + ["u3"], 0.2, True))
+        # frequent intermediate group made of rare children, rows labelled otherwise than 0..n-1
+        M0 = [["Lows", ["Low-", "Low", "Low+", "Lows"]], ["Mediums", ["Medium-", "Medium", "Medium+", "Mediums"]],
+              ["Highs", ["High-", "High", "High+", "Highs"]]]
+        M1 = [["Worst", ["Lows", "Mediums", "Worst"]], ["Best", ["Highs", "Best"]]]
+        mcol = (["Low"] * 5 + ["High"] * 4 + ["Medium"] * 3 + ["Medium-"] * 2 + ["Medium+"] * 2
+                + ["Low-", "High+", NAN, NAN])
+        for kind in ("offset", "partial", "str", "shuffle", "perm"):
+            cs.append(self.mk([M0, M1], mcol, 0.15, False, {"index_probe": True}, kind))
         # minimised inputs of earlier findings (always run first)
         import glob
         import json
@@ -150,10 +181,10 @@ class C18(Prop):
             cs.append(json.load(open(fn))["case"])
         return cs
 
-    def mk(self, levels, col, mf, drop, meta=None):
+    def mk(self, levels, col, mf, drop, meta=None, index=None):
         return {"levels": [[[k, list(vs)] for k, vs in lv] for lv in levels], "col": encs(col),
                 "mf": float(mf), "drop": bool(drop), "kin": hier_values(levels),
-                "wellformed": wellformed(levels), "meta": meta or {}}
+                "wellformed": wellformed(levels), "meta": meta or {}, "index": index}
 
     def rand_forest(self, rng):
         nlev = rng.choice([2, 2, 3, 3, 4])
@@ -262,7 +293,8 @@ class C18(Prop):
         col = [v for v, c in counts.items() for _ in range(c)] + [NAN] * nan
         rng.shuffle(col)
         drop = rng.random() < 0.5
-        return self.mk(levels, col, mf, drop, {"b": b, "n": len(col), "malformed": bad})
+        index = rng.choice([None, None, "offset", "perm", "str", "shuffle", "partial", "offset"])
+        return self.mk(levels, col, mf, drop, {"b": b, "n": len(col), "malformed": bad}, index)
 
     def rand_dropped(self, rng):
         """no value reaches min_freq: the feature is removed"""
@@ -272,7 +304,8 @@ class C18(Prop):
         top = max(col.count(v) for v in set(col))
         mf = min(0.95, (top + rng.choice([0, 1])) / n)      # on the threshold: kept; one above: dropped
         rng.shuffle(col)
-        return self.mk(levels, col, mf, rng.random() < 0.5, {"dropped_probe": True})
+        return self.mk(levels, col, mf, rng.random() < 0.5, {"dropped_probe": True},
+                       rng.choice(INDEX_KINDS))
 
     def generate(self, rng, tier):
         n = 2400 if tier == "thorough" else 260
@@ -289,7 +322,7 @@ class C18(Prop):
                 if col2:
                     i = rng.randrange(len(col2))
                     col2[i] = rng.choice(c["kin"])
-                cases.append(self.mk(c["levels"], col2, c["mf"], c["drop"], {"neighbour": True}))
+                cases.append(self.mk(c["levels"], col2, c["mf"], c["drop"], {"neighbour": True}, c.get("index")))
         return cases
 
     # ---- implementation -----------------------------------------------------------------------
@@ -300,7 +333,11 @@ class C18(Prop):
         col = decs(case["col"])
 
         def frame(values):
-            return pd.DataFrame({FEAT: pd.Series(list(values), dtype=object)})
+            df = pd.DataFrame({FEAT: pd.Series(list(values), dtype=object)})
+            idx = mk_index(len(df), case.get("index"))
+            if idx is not None:
+                df.index = idx
+            return df
 
         try:
             d = ChainedDiscretizer(
@@ -343,6 +380,12 @@ class C18(Prop):
         return bool(cnt) and max(c / n for c in cnt.values()) < case["mf"]
 
     def oracle(self, case, out):
+        ok, msg = self._oracle(case, out)
+        if not ok and case.get("index"):
+            msg += f" [training/transform frames carry a non-default row index: {case['index']}]"
+        return ok, msg
+
+    def _oracle(self, case, out):
         if not case["wellformed"]:
             return True, ""
         levels, mf = case["levels"], case["mf"]
@@ -486,7 +529,7 @@ class C18(Prop):
         best = (case, out, msg)
 
         def attempt(levels, col):
-            cand = self.mk(levels, col, case["mf"], case["drop"], {"shrunk": True})
+            cand = self.mk(levels, col, case["mf"], case["drop"], {"shrunk": True}, case.get("index"))
             if not cand["wellformed"]:
                 return None
             o = self.run_impl(cand)
@@ -529,6 +572,9 @@ class C18(Prop):
 
     def distribution(self, cases, outs):
         outc, depth, rows, unk, pol = {}, {}, [], {}, {"drop": 0, "raise": 0}
+        idx = {}
+        for c in cases:
+            idx[str(c.get("index"))] = idx.get(str(c.get("index")), 0) + 1
         nan_cases = boundary = 0
         for c, o in zip(cases, outs):
             if not isinstance(o, dict) or "outcome" not in o:
@@ -550,7 +596,7 @@ class C18(Prop):
                 boundary += any(x in (b, b - 1) for x in cnt.values())
         return {"outcomes": outc, "levels": depth, "rows_min": min(rows) if rows else 0,
                 "rows_max": max(rows) if rows else 0, "distinct_unknown_values(0,1,2+)": unk,
-                "policy": pol, "cases_with_nan": nan_cases,
+                "policy": pol, "row_index_kind": idx, "cases_with_nan": nan_cases,
                 "cases_with_a_count_on_or_one_below_threshold": boundary,
                 "malformed_hierarchies": sum(1 for c in cases if not c["wellformed"])}
 
